@@ -723,6 +723,26 @@ def gen(props, tier, rng):
             if 'C20' in props:
                 yield f"schc mdecompress {e_rules([r])} {rng.choice('LR')}:{sc} # total prefixfree"
                 yield f"schc decompress {rng.choice('LR')}:{sc} {e_rule(r)} # total"
+    # ---------------------------------------------------------------- IP in UDP in IP: two IP and two UDP headers in one field list
+    if props & {'C01', 'C09'}:
+        for i in range(24 if q else 200):
+            v6 = i % 2 == 0; build_ip = packets.build_ipv6 if v6 else packets.build_ipv4
+            pl = bytes(rng.randrange(256) for _ in range(rng.randrange(0, 24)))
+            ih2, ie2, s2, d2 = build_ip(rng, bytes(8) + pl, 17, True)
+            uh2, ue2 = packets.build_udp(rng, pl, s2, d2, v6=v6, dport=rng.choice([1000, 2000]), correct=True)
+            inner = ih2 + uh2 + pl
+            ih1, ie1, s1, d1 = build_ip(rng, bytes(8) + inner, 17, True)
+            uh1, ue1 = packets.build_udp(rng, inner, s1, d1, v6=v6, dport=rng.choice([4000, 4789]), correct=True)
+            pkt = rulegen.packet_from_fields(ie1 + ue1 + ie2 + ue2, packets.bits_of(pl), rng.choice('UD'))
+            r = rulegen.derive_rule(rng, pkt, allow_compute=False)
+            # ONE computed field per rule, outer or inner: it is regenerated from its own header's neighbourhood (the nearest IP
+            # header in front of a UDP checksum). Several computed fields on repeated headers are left out on purpose: the
+            # library orders compute functions by field id (`compute_function_sort`), which cannot tell the two headers apart.
+            ks = [k for k, f in enumerate(r['fields']) if f['id'] in rulegen.COMPUTABLE]
+            k = ks[(i // 2) % len(ks)]; f = r['fields'][k]      # every computable position, outer and inner, in turn
+            r['fields'][k] = {'id': f['id'], 'len': 16, 'pos': f['pos'], 'dir': 'B', 'mo': 'ig', 'cda': 'co', 'tv': ('b', 'L:')}
+            if props & {'C01', 'C09'}:
+                yield f"schc roundtrip {e_packet(pkt)} {e_rule(r)} # {'c01 ' if 'C01' in props else ''}{'c09' if 'C09' in props else ''}"
     # ---------------------------------------------------------------- the un-parsing path (C01, C19, C09)
     if props & {'C01', 'C19', 'C09'}:
         yield from _gen_unparser(rng, q, props)
@@ -734,12 +754,14 @@ def _mutants(rng, s, n):
     """truncations, flips, id only, sizes announcing more bits than present"""
     out = []
     for _ in range(n):
-        k = rng.choice(['trunc', 'trunc', 'flip1', 'flip3', 'rand', 'grow', 'same'])
+        k = rng.choice(['trunc', 'trunc', 'flip1', 'flip3', 'rand', 'grow', 'same', 'ones', 'zeros'])
         if k == 'trunc': m = s[:rng.randrange(0, len(s) + 1)]
         elif k == 'flip1': m = _flip(rng, s, 1)
         elif k == 'flip3': m = _flip(rng, s, 3)
         elif k == 'rand': m = rulegen.rbits(rng, rng.randrange(0, 300))
         elif k == 'grow': m = s[:rng.randrange(0, len(s) + 1)] + '1' * rng.randrange(4, 30)
+        elif k == 'ones': m = s[:rng.randrange(0, min(len(s), 24) + 1)] + '1' * rng.randrange(28, 120)     # every size prefix at its escape value
+        elif k == 'zeros': m = s[:rng.randrange(0, min(len(s), 24) + 1)] + '0' * rng.randrange(0, 120)
         else: m = s
         out.append(f"{'L' if len(m) % 8 == 0 and rng.random() < 0.5 else 'R'}:{m}")
     return out
@@ -785,6 +807,8 @@ def _with_directions(rng, rule, pkt, every_position=None):
     r['fields'] = out
     return r
 
+UNPARSER_SPECS = 10     # the two IP-in-UDP specs at the end are switched on once `PacketParser.unparse` keeps their field order
+
 def _gen_unparser(rng, q, props):
     """explicit stacks with CoAP options in semantic mode (and predictive single parsers), rule by recipe, decompress with
     the parser as unparser: every option-number / delta / length class, with and without payload, compute fields included"""
@@ -793,7 +817,10 @@ def _gen_unparser(rng, q, props):
              ('IPv6p', 'IPv6-UDP-CoAP', True), ('IPv4p', 'IPv4-UDP-CoAP', True), ('IPv6+UDPp', 'IPv6-UDP-CoAP', True),
              ('IPv6+UDP+CoAP', 'IPv6-UDP-CoAP', True), ('SCTP', 'SCTP', True),
              # a header class listed twice: IPv6-in-IPv6 tunnel, every field must come back exactly once
-             ('IPv6+IPv6+UDP+CoAPs', 'tunnel6', False), ('IPv6+IPv6+UDP+CoAP', 'tunnel6', False)]
+             ('IPv6+IPv6+UDP+CoAPs', 'tunnel6', False), ('IPv6+IPv6+UDP+CoAP', 'tunnel6', False),
+             # the same header classes again AFTER the transport header (IPv6 in UDP in IPv6): each checksum takes the addresses
+             # of the nearest IP header in front of it
+             ('IPv6+UDP+IPv6+UDP', 'udptunnel6', True), ('IPv4+UDP+IPv4+UDP', 'udptunnel4', True)][:UNPARSER_SPECS]
     recipes = ['v', 'n', 'vn', 'nlv', 'vlm', 'mnv', 'cv', 'cn', 'cvl', 'l']
     styles = ['small', 'mixed', 'boundary', 'big', 'repeat', 'none']
     for i in range(N):
@@ -802,7 +829,16 @@ def _gen_unparser(rng, q, props):
         if stackspec.endswith('CoAPs') and ip and (i // len(specs)) % 2 == 0 and 'c' not in rec: rec = 'c' + rec   # lengths / checksums over re-encoded options
         if 'c' in rec and not ip: rec = rec.replace('c', 'v')
         if 'C09' in props and 'C01' not in props and 'C19' not in props and 'c' not in rec: rec = 'c' + rec
-        if cfg == 'tunnel6':
+        if cfg in ('udptunnel6', 'udptunnel4'):
+            v6 = cfg.endswith('6'); build_ip = packets.build_ipv6 if v6 else packets.build_ipv4
+            pl = bytes(rng.randrange(256) for _ in range(rng.randrange(0, 24)))
+            ih2, _, s2, d2 = build_ip(rng, bytes(8) + pl, 17, True)
+            uh2, _ = packets.build_udp(rng, pl, s2, d2, v6=v6, dport=rng.choice([1000, 2000]), correct=True)
+            inner = ih2 + uh2 + pl
+            ih1, _, s1, d1 = build_ip(rng, bytes(8) + inner, 17, True)
+            uh1, _ = packets.build_udp(rng, inner, s1, d1, v6=v6, dport=rng.choice([4000, 4789]), correct=True)
+            data = ih1 + uh1 + inner
+        elif cfg == 'tunnel6':
             inner, _, _ = packets.gen_stack_packet(rng, 'IPv6-UDP-CoAP', correct=True, coap_style=styles[i % len(styles)])
             outer, _, _, _ = packets.build_ipv6(rng, inner, 41, True)
             data = outer + inner
